@@ -543,6 +543,18 @@ def check_macro_table_lookup(ctx, rep, rule: str):
     ix, T = ctx.ix, ctx.typer
     MOD = "jaqalpaq.core.algorithm.expand_macros"
     rep.rule(rule, "the macro body inlined by expand_macros is the entry of the circuit's macro table, not the (possibly stale) definition object a call statement carries", floor=1)
+    # the condition is only necessary while some pass rebuilds Macro objects WITHOUT re-linking the calls
+    MACRO_ = "jaqalpaq.core.macro.Macro"
+    unlinked = []
+    for c in ix.classes.values():
+        if not c.module.startswith("jaqalpaq.core.algorithm") or not T.is_visitor(c.qualname):
+            continue
+        builds = any(cs.kind == "constructor" and cs.classes and cs.classes[0] == MACRO_ for m in c.methods.values() for cs in T.callsites(m))
+        if builds and "visit_GateStatement" not in c.methods:
+            unlinked.append(c.name)
+    if not unlinked:
+        rep.exempt(rule, "core.algorithm.expand_macros:replace_gate:inlined-macro-source", "every pass that builds new Macro objects re-links the call statements (C09.9), so a call's own definition and the table entry are the same object; either may be inlined")
+        return
     sites = 0
     for f in ix.functions.values():
         if f.module != MOD or isinstance(f.node, ast.Lambda):
